@@ -41,6 +41,7 @@ class Check(BaseCheck):
                 specs.append({'campaign': 'amp', 'n': 5000, 'seed': seed, 'i': i})
             for z in ('EST5EDT,M3.2.0,M11.1.0', 'CET-1CEST,M3.5.0,M10.5.0/3'):
                 specs.append({'campaign': 'pairs', 'draws': 6, 'seed': seed, 'i': 'tz', 'tz': z})      # dates act through their serial in any process time zone
+            specs.append({'campaign': 'pairs', 'draws': 6, 'seed': seed, 'i': 'dc', 'decimal_context': {'prec': 5, 'trap_inexact': True}})      # ... and under any decimal context
         else:
             for i in range(32):
                 specs.append({'campaign': 'pairs', 'draws': 160, 'seed': seed, 'i': i})
@@ -159,6 +160,9 @@ class Check(BaseCheck):
             ok = exp[0] == 'err' and exp[1] == r['error']
         else:
             ok = exp[0] != 'err' and self.matches(exp, got)
+            if ok and exp[0] == 'num' and op in '+-*' and all(isinstance(x, int) for x in (a, b)) and type(got) is not int:
+                # whole numbers and logicals under + - * give a whole number, not its float ("integers as their digits" under a following &)
+                rec.violation('C06/%s:whole-operands-give-a-float' % op, formula=f, a=a, b=b, record=r, injected=how)
             if ok and exp[0] == 'num' and op in '+-*' and all(isinstance(x, int) and not isinstance(x, bool) for x in (a, b)):
                 ok = Fr(got) == exp[1]          # integer arithmetic is exact, also beyond 2**53
             elif ok and exp[0] == 'num' and op in '+-*/' and all(isinstance(x, (int, float)) for x in (a, b)) and is_num(got):
